@@ -251,9 +251,10 @@ func runC17(c *core.Ctx) {
 
 func c17Trees(c *core.Ctx) {
 	r := c.Rand("trees")
-	names := []string{"a", "b", "a.go", "b.go", "x.md", "a.go.bak", "c+d", "q", "é", "(x)", "a$"}
+	// (names that contain glob metacharacters and backslashes: an escaped metacharacter in a pattern matches the character itself)
+	names := []string{"a", "b", "a.go", "b.go", "x.md", "a.go.bak", "c+d", "q", "é", "(x)", "a$", "x[1].txt", "q?", "s*r", "back\\slash", "lit\\[1\\].txt", "]"}
 	dirs := []string{"", "src", "src/sub", "docs", "x", "x/y"}
-	n := c.N(40, 1500)
+	n := c.N(120, 3000)
 	for i := 0; i < n; i++ {
 		id := fmt.Sprintf("tree/%d", i)
 		if !c.Want(id) {
@@ -272,7 +273,9 @@ func c17Trees(c *core.Ctx) {
 				}
 			}
 		}
-		pool := []string{"*.go", "**/*.go", "*.md", "src/*", "src/**", "**", "*", "?", "x/?", "docs/**", "**/a", "a", "b", "*.go.bak", "**.md", "c+d", "(x)", "a$", "src/sub/*.go", "é"}
+		pool := []string{"*.go", "**/*.go", "*.md", "src/*", "src/**", "**", "*", "?", "x/?", "docs/**", "**/a", "a", "b", "*.go.bak", "**.md", "c+d", "(x)", "a$", "src/sub/*.go", "é",
+			// wildcard-free patterns with escapes, alone and below directories
+			"x\\[1\\].txt", "q\\?", "s\\*r", "back\\\\slash", "lit\\[1\\].txt", "src/x\\[1\\].txt", "\\]", "docs/q\\?", "x/y/s\\*r", "a.go", "src/b.go", "x.md"}
 		pick := func(max int) []string {
 			k := r.IntN(max + 1)
 			out := make([]string, k)
